@@ -65,6 +65,10 @@ def concretize(c, tag=False):
                 body = f"parent({cpfx(cp)}0)"
             elif n == "parentp_untyped":
                 body = f"parent({cpfx(cp)}b1, [parent(c1)] inner)"
+            elif n == "parentp_untyped2":
+                body = f"parent({cpfx(cp)}b1, [parent(c1)] inner: Inner, [parent(c2)] inner2)"
+            elif n == "parentp_untyped_deep":
+                body = f"parent({cpfx(cp)}[parent([parent(d1)] deep)] inner: Inner)"
             elif n == "child":
                 body = f"child({cpfx(cp)}p)"
             elif n == "parent0":
@@ -141,13 +145,10 @@ def classify(msgs):
 def run(tier, seed):
     ctx = core.Ctx("C15", tier, seed, LEVEL)
     cfgs = ["MC_C15_q1", "MC_C15_q2", "MC_C15_q3", "MC_C15_q4", "MC_C15_q5"]
+    import streams
     cases = []
     for cfg in cfgs:
-        r = core.tlc("MC_C15", cfg, workers=12, timeout=1500)
-        if not r.ok:
-            raise core.ToolError(f"MC_C15/{cfg}:\n{r.stdout[-2000:]}")
-        ctx.add_tlc(r)
-        cases += r.cases
+        cases += streams.tlc_cases(ctx, "MC_C15", cfg, None, seed, timeout=1500)
     seen, uniq = set(), []
     for c in cases:
         k = json.dumps(c, sort_keys=True)
@@ -155,12 +156,12 @@ def run(tier, seed):
             seen.add(k)
             uniq.append(c)
     cases = uniq
-    if tier == "quick" and len(cases) > 120000:
+    if tier == "quick" and len(cases) > 100000:
         import random
         rnd = random.Random(seed)
-        keep = set(rnd.sample(range(len(cases)), 120000))
+        keep = set(rnd.sample(range(len(cases)), 100000))
         cases = [c for i, c in enumerate(cases) if i in keep]
-        ctx.notes.append("quick tier: uniform sample of 120000 of the enumerated inputs (seeded); thorough judges all")
+        ctx.notes.append("quick tier: uniform sample of 100000 of the enumerated inputs (seeded); thorough judges all")
     srcs = [concretize(c) for c in cases]
     runs = core.expand([{"id": i, "src": s} for i, s in enumerate(srcs)], "syn1")
     trace = []
